@@ -2386,8 +2386,11 @@ def run(ck):
         """search over (CFG block, what the tests of the current hold of mutex_ have shown about the atoms of P) for a path from the
         entry of fn to its return on which P is never established.  strict: only steps that are fully understood are taken"""
 
-        def __init__(self, fn, atoms, rows, memo):
+        def __init__(self, fn, atoms, rows, memo, block_text=None):
             self.fn, self.atoms, self.rows, self.memo = fn, atoms, rows, memo
+            # block_text: None = search for a return without P (WAIT-RETURN); the canonical text of P = search for a bare wait that
+            # is entered while P may hold (NO-BARE-WAIT, obligation `checked before blocking`): establishing P does not end a path then
+            self.block_text = block_text
             self.g = locks.g(fn)
             self.n = len(atoms)
             self.top = frozenset(rows)
@@ -2516,7 +2519,14 @@ def run(ck):
                     if name in WAITS and "condition_variable" in (nd["callee"].get("record") or ""):
                         w = self.waits_here.get(nd["id"])
                         if w is not None and w["pred"] is not None and name == "wait":
-                            return None          # the wait returns with its predicate true, evaluated under the mutex
+                            if self.block_text is None:
+                                return None          # the wait returns with its predicate true, evaluated under the mutex
+                            if wait_of.get((fn.did, nd["id"]), (None, None))[1] == self.block_text:
+                                return self.ptrue    # the same predicate: it holds, seen in this hold of the mutex
+                            if strict:
+                                return ()
+                            self.note = self.note or (nd, "a wait for another predicate lies on the path")
+                            return self.havoc(K)
                         # a bare wait may return at any time (the loop around it re-checks); a timed wait returns when the time is
                         # up, with its predicate false
                         return self.havoc(K)
@@ -2524,6 +2534,8 @@ def run(ck):
                 if did in locks.by_did and did != fn.did:
                     cal = locks.by_did[did]
                     r = self.memo(cal)
+                    if r == "must" and self.block_text is not None:
+                        r = "may"
                     if r == "must":
                         return None
                     if r == "may":
@@ -2574,13 +2586,15 @@ def run(ck):
                 self.note = self.note or (cond, "whether %s is held at the test `%s` (line %s) differs between paths" % (MUTEX, dtable.describe(cond)[:40], cond.get("l")))
                 return self.havoc(K2), (cond, truth, False)
             if held is True:
-                if K2 <= self.ptrue:
+                if K2 <= self.ptrue and self.block_text is None:
                     return None, None
                 return K2, (cond, truth, True)
             return self.havoc(K2), (cond, truth, False)
 
-        def search(self, strict):
-            """(blocks of the path, tests on it) of a path entry -> return on which P is never established, else None"""
+        def search(self, strict, target=None):
+            """(blocks of the path, tests on it) of a path entry -> return on which P is never established, else None.
+            With target (id of a bare wait call; block mode): (blocks, tests, valuations) of a path entry -> that wait at which
+            valuations with P true are still possible, i.e. the wait is entered without P having been found false in this hold"""
             g = self.g
             self.note = None
             if self.write_unplaced is not None and not strict:
@@ -2594,7 +2608,17 @@ def run(ck):
                     undecided(self.fn, None, "search for a return without the wait predicate does not end in %s" % self.fn.qname)
                 b, K = work[head]
                 head += 1
-                if b == g.exit:
+                hit = None
+                if target is not None:
+                    cur = K
+                    for i, el in enumerate(g.elements(b)):
+                        if isinstance(el, int) and el == target and cur and cur & self.ptrue:
+                            hit = sorted(cur & self.ptrue)
+                            break
+                        cur = self.transfer(el, (b, i), cur, strict)
+                        if cur is None or cur == ():
+                            break
+                if (b == g.exit and target is None) or hit is not None:
                     path, tests = [], []
                     x = (b, K)
                     while x is not None:
@@ -2605,6 +2629,8 @@ def run(ck):
                         if link[1] is not None:
                             tests.append(link[1])
                         x = link[0]
+                    if hit is not None:
+                        return path[::-1], tests[::-1], hit
                     return path[::-1], tests[::-1]
                 cur = K
                 for i, el in enumerate(g.elements(b)):
@@ -2702,6 +2728,62 @@ def run(ck):
             continue
         if waits_reached(fn) or any(lf is not None and sync.wait_calls(lf) for lx, lf in lambdas_in(tu, fn)):
             ck.guarded(lambda fn=fn: wait_return(fn))
+
+    # ---- NO-BARE-WAIT, second obligation: a wait without predicate blocks only after its predicate was found FALSE in this hold
+    # wait(lock, P) tests P before it blocks.  A hand-written loop around wait(lock) has to do the same: if the thread blocks while
+    # P already holds, every notification for P may have been sent before (the writes that make P true notify once, WRITE-NOTIFY),
+    # and nobody wakes it again - a lost wake-up.  Obligation: at every untimed bare wait, the tests taken since mutex_ was last
+    # acquired / released / waited on leave only valuations of the atoms of P (P = negated re-check condition, as derived above)
+    # under which P is false.  Decided by the same search as WAIT-RETURN (CFG block x knowledge about the atoms), goal = the wait.
+    # Evidence of a violation: a path entry -> wait over branches that are all read, and a valuation with P true that survives
+    # them.  A timed wait is not judged (it returns by itself); a wait whose predicate is not known is `cannot decide`.
+    def wait_checked(w):
+        fn = w["fn"]
+        where = "%s %s" % (fn.qname, w["cv"])
+        key = (fn.did, w["node"]["id"])
+        if key not in wait_of and w["cv"] not in unknown_pred:
+            return          # no re-check loop at all: reported by the first obligation
+        if key not in wait_of:
+            undecided(fn, w["node"], "bare wait on %s: the condition it waits for is not understood%s, so whether it is tested before blocking is not decided"
+                      % (w["cv"], " (%s)" % unknown_pred[w["cv"]] if w["cv"] in unknown_pred else ""))
+        w0, text = wait_of[key]
+        e, negate, lf = pred_expr(tu, w0)
+        leaves = dtable.explore(e, pred_atom, lf, as_expr=True)
+        atoms = sorted(dtable.atoms_of(leaves))
+        rows = {}
+        for v, l in dtable.table(leaves, None, atoms):
+            rows[tuple(v[a] for a in atoms)] = (not l["result"]) if negate else l["result"]
+        flow = WaitFlow(fn, atoms, rows, lambda cal: "may" if waits_reached(cal) else "no", block_text=text)
+        wit = flow.search(True, target=w["node"]["id"])
+        if wit is None:
+            wit2 = flow.search(False, target=w["node"]["id"])
+            if wit2 is not None:
+                node, what = flow.note if flow.note else (None, "a step on the path is not understood")
+                undecided(fn, node, "%s() may block in wait() on %s while %s already holds, but %s" % (fn.name, w["cv"], text, what))
+            ck.ok("NO-BARE-WAIT", where + " checked", "the bare wait is entered only after %s was found false in the same hold of %s" % (text, MUTEX))
+            return
+        path, tests, vals = wit
+        doubt = path_doubt(fn, flow.g, path)
+        if doubt:
+            undecided(fn, w["node"], doubt)
+        if locks.callers(fn):
+            undecided(fn, w["node"], "%s() blocks in wait() on %s without having tested %s in this hold of %s, but it is called from %s: the test may be there"
+                      % (fn.name, w["cv"], text, MUTEX, locks.callers(fn)[0][0].qname))
+        if tests:
+            seen = "the only tests are " + ", ".join("`%s` is %s (line %s, %s %s)" % (dtable.describe(c)[:40], "true" if t else "false", c.get("l"), MUTEX,
+                                                                                     "held" if h else "not held") for c, t, h in tests[-3:])
+        else:
+            seen = "there is no test of the condition"
+        cex = ", ".join("%s=%d" % (a, 1 if b else 0) for a, b in zip(atoms, vals[0]))
+        ck.violation("NO-BARE-WAIT", fn.qname, "%s:%s:unchecked" % (fn.name, w["cv"]),
+                     "%s() blocks in %s.wait() without having found the awaited condition %s false since %s was last acquired: on the path to the "
+                     "wait %s. Counterexample: the state %s (condition already true, e.g. the writes that make it true and their notify on %s "
+                     "happened before this call) reaches the wait; no further notification is due, the waiter sleeps forever although it should "
+                     "return at once (lost wake-up). wait(lock, pred) and `while (!pred) wait(lock)` test before blocking; `do wait(lock); while (!pred)` does not"
+                     % (fn.name, w["cv"], text, MUTEX, seen, cex, w["cv"]), fn.nloc(w["node"]))
+    for w in waits:
+        if w["pred"] is None and w["node"]["callee"]["name"] == "wait" and w["fn"].cfg and w["cv"] is not None:
+            ck.guarded(lambda w=w: wait_checked(w))
 
     # ---- join with the mutex released; every thread joined exactly once
     def join_rule(fn, joins):
